@@ -206,4 +206,281 @@ theorem rowWrites_concat {β : Type} (z : β) (segs : List (List β)) : ∀ (pre
       simp only [List.append_assoc]
       simpa using this
 
+
+/-- reading: slicing the concatenation of the parts at the slab bounds returns the parts (Hstack/Diag input side,
+    one row; `c` = number of entries behind the axis). -/
+theorem slabs_read_concat {β : Type} (c : Nat) (segs : List (List β))
+    (sizes : List Nat) (hs : segs.map List.length = sizes.map (· * c)) :
+    ((specBounds 0 sizes).map (fun b => (b.1 * c, b.2.map (· * c)))).map
+      (fun b => selRange b.1 b.2 segs.flatten) = segs := by
+  rw [specBounds_scale, Nat.zero_mul, ← hs]
+  simpa using selRange_concat segs []
+
+/-! ### the exact shape guard on `Nat` shapes -/
+
+theorem natGuard_cons (a b : Nat) (got adv : List Nat) :
+    natGuard (a :: got) (b :: adv) = (decide (a = b) && natGuard got adv) := by
+  unfold natGuard
+  simp only [List.map_cons, zipGuard]
+  have h1 : decide ((Int.ofNat b) = -1) = false := by
+    simp only [decide_eq_false_iff_not, Int.ofNat_eq_natCast]; omega
+  have h2 : decide (Int.ofNat a = Int.ofNat b) = decide (a = b) := by
+    simp only [Int.ofNat_eq_natCast, Int.natCast_inj]
+  rw [h1, h2, Bool.false_or]
+
+theorem natGuard_nil_left (adv : List Nat) : natGuard [] adv = true := by
+  unfold natGuard; simp [zipGuard]
+
+theorem natGuard_nil_right (got : List Nat) : natGuard got [] = true := by
+  unfold natGuard; cases got <;> simp [zipGuard]
+
+/-- **the guard is a common-prefix test**: it passes exactly when the two shapes agree on the first
+    `min (rank got) (rank adv)` entries -/
+theorem natGuard_iff_prefix : ∀ (got adv : List Nat),
+    natGuard got adv = true ↔ got.take adv.length = adv.take got.length := by
+  intro got
+  induction got with
+  | nil => intro adv; simp [natGuard_nil_left]
+  | cons a got ih =>
+    intro adv
+    cases adv with
+    | nil => simp [natGuard_nil_right]
+    | cons b adv =>
+      rw [natGuard_cons]
+      simp only [Bool.and_eq_true, decide_eq_true_eq, List.length_cons, List.take_succ_cons, List.cons.injEq, ih]
+
+/-- for shapes of the same rank the guard is equality -/
+theorem natGuard_eq_iff (got adv : List Nat) (h : got.length = adv.length) :
+    natGuard got adv = true ↔ got = adv := by
+  rw [natGuard_iff_prefix, h, List.take_length, ← h, List.take_length]
+
+theorem natGuard_refl (s : List Nat) : natGuard s s = true := (natGuard_eq_iff s s rfl).mpr rfl
+
+/-! ### N-d geometry: rows of a row-major array, concatenation along an axis -/
+
+theorem length_rowOf {β} (k o : Nat) (l : List β) (h : (o + 1) * k ≤ l.length) :
+    (rowOf k o l).length = k := by
+  unfold rowOf
+  have : o * k + k ≤ l.length := by rw [Nat.add_mul] at h; simpa using h
+  simp only [List.length_take, List.length_drop]
+  omega
+
+
+/-- `np.concatenate(ys, axis=a)` in flat row-major form: for every index tuple in front of the axis, the
+    rows of the operands one after the other (`inner` = number of entries behind the axis). -/
+def concatAx {α} (outer inner : Nat) (a : Nat) (ys : List (NDArr α)) : List α :=
+  ((List.range outer).map fun o =>
+    (ys.map fun y => rowOf ((geom y.shape a).n * inner) o y.data).flatten).flatten
+
+
+theorem rowOf_succ {β} (k o : Nat) (l : List β) : rowOf k (o + 1) l = rowOf k o (l.drop k) := by
+  unfold rowOf
+  rw [List.drop_drop]
+  congr 2
+  rw [Nat.add_mul]; omega
+
+/-- cutting a flat array of `m` rows into its rows and gluing them again gives the array back -/
+theorem flatten_rowOf {β} (k : Nat) : ∀ (m : Nat) (l : List β), l.length = m * k →
+    ((List.range m).map fun o => rowOf k o l).flatten = l := by
+  intro m
+  induction m with
+  | zero => intro l h; simp at h; simp [h]
+  | succ m ih =>
+    intro l h
+    rw [List.range_succ_eq_map, List.map_cons, List.map_map, List.flatten_cons]
+    have h2 : (l.drop k).length = m * k := by
+      rw [List.length_drop, h, Nat.add_mul]; omega
+    have := ih (l.drop k) h2
+    simp only [Function.comp_def, Nat.succ_eq_add_one, rowOf_succ]
+    rw [this]
+    simp [rowOf]
+
+/-- row `o` of a flat array that is a concatenation of rows of length `k` is the `o`-th of them -/
+theorem rowOf_flatten {β} (k : Nat) : ∀ (rows : List (List β)) (o : Nat) (r : List β), (∀ r ∈ rows, r.length = k) →
+    rows[o]? = some r → rowOf k o rows.flatten = r := by
+  intro rows
+  induction rows with
+  | nil => intro o r _ h; simp at h
+  | cons r0 rs ih =>
+    intro o r hk h
+    have h0 : r0.length = k := hk r0 (by simp)
+    cases o with
+    | zero =>
+      simp at h; subst h
+      simp [rowOf, List.take_left' h0]
+    | succ o =>
+      rw [rowOf_succ, List.flatten_cons, List.drop_left' h0]
+      exact ih o r (fun r hr => hk r (by simp [hr])) (by simpa using h)
+
+theorem take_set_self (S : List Nat) : ∀ (a v : Nat), (S.set a v).take a = S.take a := by
+  induction S with
+  | nil => intro a v; simp
+  | cons h t ih => intro a v; cases a with
+    | zero => simp
+    | succ a => simp [ih]
+
+theorem drop_set_succ (S : List Nat) : ∀ (a v : Nat), (S.set a v).drop (a + 1) = S.drop (a + 1) := by
+  induction S with
+  | nil => intro a v; simp
+  | cons h t ih => intro a v; cases a with
+    | zero => simp
+    | succ a => simp [ih]
+
+theorem sprod_cons (h : Nat) (t : List Nat) : sprod (h :: t) = h * sprod t := rfl
+
+theorem sprod_split (S : List Nat) : ∀ a, a < S.length →
+    sprod S = sprod (S.take a) * (S.getD a 0 * sprod (S.drop (a + 1))) := by
+  induction S with
+  | nil => intro a h; simp at h
+  | cons h t ih =>
+    intro a ha
+    cases a with
+    | zero => simp [sprod]
+    | succ a =>
+      have := ih a (by simpa using ha)
+      simp only [List.take_succ_cons, List.drop_succ_cons, sprod_cons, List.getD_cons_succ]
+      rw [this, Nat.mul_assoc]
+
+
+/-- a well-formed dense array: as many entries as the shape says -/
+def NDArr.WF {α} (x : NDArr α) : Prop := x.data.length = sprod x.shape
+
+/-- the part shapes `shs` stack to `S` along axis `a`: every part agrees with `S` off the axis and the axis
+    entries add up (what `_hstack_params/_vstack_params` establish, see `stackParams_stacked`) -/
+structure Stacked (a : Nat) (S : List Nat) (shs : List (List Nat)) : Prop where
+  lt : a < S.length
+  shape : ∀ sh ∈ shs, sh = S.set a (sh.getD a 0)
+  total : S.getD a 0 = (shs.map (·.getD a 0)).sum
+
+theorem length_specBounds (sizes : List Nat) : ∀ s, (specBounds s sizes).length = sizes.length := by
+  induction sizes with
+  | nil => intro s; rfl
+  | cons x r ih => intro s; cases r with
+    | nil => rfl
+    | cons y r' => simp [specBounds, ih]
+
+/-- the slab `[S_k, S_{k+1})` (last: open-ended) of an axis of length `Σ sizes` has `sizes_k` entries -/
+theorem selLen_specBounds (sizes : List Nat) : ∀ s,
+    (specBounds s sizes).map (fun b => selLen (s + sizes.sum) b.1 b.2) = sizes := by
+  induction sizes with
+  | nil => intro s; rfl
+  | cons x r ih =>
+    intro s
+    cases r with
+    | nil => simp [specBounds, selLen]
+    | cons y r' =>
+      have := ih (s + x)
+      simp only [specBounds, List.map_cons, List.sum_cons, List.cons.injEq] at this ⊢
+      refine ⟨by simp [selLen], ?_⟩
+      rw [← Nat.add_assoc]; exact this
+
+theorem map_eq_at {β γ} {f : β → γ} {l : List β} {m : List γ} (h : l.map f = m) (k : Nat) (b : β) (c : γ)
+    (hb : l[k]? = some b) (hc : m[k]? = some c) : f b = c := by
+  have := congrArg (·[k]?) h
+  simp [hb, hc] at this; exact this
+
+theorem geom_part (a : Nat) (S sh : List Nat) (hlt : a < S.length) (h : sh = S.set a (sh.getD a 0)) :
+    (geom sh a).outer = (geom S a).outer ∧ (geom sh a).inner = (geom S a).inner ∧
+      sprod sh = (geom S a).outer * ((geom sh a).n * (geom S a).inner) := by
+  have hl : a < sh.length := by rw [h]; simpa using hlt
+  refine ⟨?_, ?_, ?_⟩
+  · simp only [geom]; rw [h, take_set_self]
+  · simp only [geom]; rw [h, drop_set_succ]
+  · rw [sprod_split sh a hl]
+    simp only [geom]
+    congr 1
+    · rw [h, take_set_self]
+    · congr 1; rw [h, drop_set_succ]
+
+
+/-- the rows of the concatenation: row `o` of `concatAx` is the concatenation of the rows `o` of the parts -/
+theorem rowOf_concatAx {α} (outer inner a : Nat) (xs : List (NDArr α)) (N : Nat)
+    (hN : N = (xs.map fun y => (geom y.shape a).n).sum)
+    (hlen : ∀ y ∈ xs, y.data.length = outer * ((geom y.shape a).n * inner)) (o : Nat) (ho : o < outer) :
+    rowOf (N * inner) o (concatAx outer inner a xs) =
+      (xs.map fun y => rowOf ((geom y.shape a).n * inner) o y.data).flatten := by
+  unfold concatAx
+  apply rowOf_flatten
+  · intro r hr
+    simp only [List.mem_map, List.mem_range] at hr
+    obtain ⟨o', ho', rfl⟩ := hr
+    rw [List.length_flatten, List.map_map, hN]
+    clear hN
+    induction xs with
+    | nil => simp
+    | cons y ys ih =>
+      simp only [List.map_cons, List.sum_cons, Nat.add_mul, Function.comp]
+      rw [ih (fun z hz => hlen z (by simp [hz]))]
+      congr 1
+      apply length_rowOf
+      rw [hlen y (by simp)]
+      exact Nat.mul_le_mul_right _ (by omega)
+  · simp [ho]
+
+/-- **N-d read side**: slicing the concatenation (along axis `a`) of well-formed parts at the slab bounds
+    `[S_k, S_{k+1})` (last one open-ended) returns exactly the parts, in order — shape and data. -/
+theorem sliceAx_concat {α} (a : Nat) (S : List Nat) (xs : List (NDArr α))
+    (hst : Stacked a S (xs.map (·.shape))) (hwf : ∀ y ∈ xs, y.WF) :
+    (specBounds 0 (xs.map fun y => (geom y.shape a).n)).map
+      (fun b => sliceAx ⟨S, concatAx (geom S a).outer (geom S a).inner a xs⟩ a b.1 b.2) = xs := by
+  have hshape : ∀ y ∈ xs, y.shape = S.set a (y.shape.getD a 0) := fun y hy =>
+    hst.shape y.shape (List.mem_map.mpr ⟨y, hy, rfl⟩)
+  have hlen : ∀ y ∈ xs, y.data.length = (geom S a).outer * ((geom y.shape a).n * (geom S a).inner) := by
+    intro y hy
+    rw [hwf y hy]; exact (geom_part a S y.shape hst.lt (hshape y hy)).2.2
+  have hN : (geom S a).n = (xs.map fun y => (geom y.shape a).n).sum := by
+    have := hst.total
+    simpa [geom, List.map_map, Function.comp_def] using this
+  apply List.ext_getElem?
+  intro k
+  rw [List.getElem?_map]
+  cases hb : (specBounds 0 (xs.map fun y => (geom y.shape a).n))[k]? with
+  | none =>
+    have : xs.length ≤ k := by
+      have := List.getElem?_eq_none_iff.mp hb
+      simpa [length_specBounds] using this
+    simp [List.getElem?_eq_none_iff.mpr this]
+  | some b =>
+    have hk : k < xs.length := by
+      have := (List.getElem?_eq_some_iff.mp hb).1
+      simpa [length_specBounds] using this
+    have hy : xs[k]? = some xs[k] := List.getElem?_eq_getElem hk
+    have hmem : xs[k] ∈ xs := List.getElem_mem hk
+    rw [hy]
+    simp only [Option.map_some, Option.some.injEq]
+    -- shape
+    have hsel := map_eq_at (selLen_specBounds (xs.map fun y => (geom y.shape a).n) 0) k b
+      ((geom xs[k].shape a).n) hb (by simp [hy])
+    rw [Nat.zero_add, ← hN] at hsel
+    -- data
+    have hrow : ∀ o, o < (geom S a).outer →
+        selRange (b.1 * (geom S a).inner) (b.2.map (· * (geom S a).inner))
+          (rowOf ((geom S a).n * (geom S a).inner) o (concatAx (geom S a).outer (geom S a).inner a xs)) =
+        rowOf ((geom xs[k].shape a).n * (geom S a).inner) o xs[k].data := by
+      intro o ho
+      rw [rowOf_concatAx _ _ _ _ _ hN hlen o ho]
+      have hs : (xs.map fun y => rowOf ((geom y.shape a).n * (geom S a).inner) o y.data).map List.length =
+          (xs.map fun y => (geom y.shape a).n).map (· * (geom S a).inner) := by
+        rw [List.map_map, List.map_map]
+        apply List.map_congr_left
+        intro y hy'
+        simp only [Function.comp]
+        apply length_rowOf
+        rw [hlen y hy']
+        exact Nat.mul_le_mul_right _ (by omega)
+      have := slabs_read_concat (geom S a).inner _ _ hs
+      exact map_eq_at this k (b.1 * (geom S a).inner, b.2.map (· * (geom S a).inner)) _
+        (by simp [hb]) (by simp [hy])
+    unfold sliceAx
+    simp only
+    have hdata : ((List.range (geom S a).outer).map fun o =>
+        selRange (b.1 * (geom S a).inner) (b.2.map (· * (geom S a).inner))
+          (rowOf ((geom S a).n * (geom S a).inner) o (concatAx (geom S a).outer (geom S a).inner a xs))).flatten =
+        xs[k].data := by
+      rw [List.map_congr_left (fun o ho => hrow o (List.mem_range.mp ho))]
+      exact flatten_rowOf _ _ _ (hlen _ hmem)
+    rw [hdata, hsel]
+    have : S.set a (geom xs[k].shape a).n = xs[k].shape := (hshape _ hmem).symm
+    rw [this]
+
 end SigpyVerif.C03
